@@ -11,6 +11,7 @@ import (
 	"testing"
 
 	"github.com/WICG/webpackage/go/signedexchange/mice"
+	"github.com/WICG/webpackage/go/verifh/gen"
 	"github.com/WICG/webpackage/go/verifh/ref/refmice"
 	"github.com/WICG/webpackage/go/verifh/vh"
 	"pgregory.net/rapid"
@@ -36,6 +37,10 @@ type Case struct {
 	// io.Copy, "readfull" = io.ReadFull of exactly the remaining octets. "" = Read loop only.
 	Drain      string `json:"drain,omitempty"`
 	DrainAfter int    `json:"drain_after,omitempty"`
+	// Src: how the encoded stream reaches the decoder (gen.Source): 0 = bytes.Reader, k > 0 = a
+	// plain io.Reader that hands out at most k octets per Read (odd k: io.EOF together with the
+	// last octets) - pipes, sockets and HTTP bodies deliver short reads, bytes.Reader never does.
+	Src int `json:"src,omitempty"`
 }
 
 func filler(seed int64, n int) []byte {
@@ -140,7 +145,13 @@ func check(c Case, r *vh.R) {
 	}
 
 	// --- decode what Encode produced with the digest it returned
-	dec, err := enc.NewDecoder(bytes.NewReader(got), digest, c.MaxRS)
+	if c.Src > 0 {
+		r.Class("source:plain-reader")
+		if c.Src < 8 && len(got) >= 8 {
+			r.Class("source:first-read-shorter-than-size-field")
+		}
+	}
+	dec, err := enc.NewDecoder(gen.Source(got, c.Src), digest, c.MaxRS)
 	if uint64(rs) > c.MaxRS && len(got) > 0 {
 		// outside the round-trip property (record size above the caller's limit); C15 covers it
 		r.Class("max-below-rs")
@@ -287,7 +298,8 @@ func TestExhaustive(t *testing.T) {
 					for _, max := range []uint64{16384, uint64(rs)} {
 						for _, pat := range readPatterns(rs) {
 							n++
-							if !exhProp.One(t, Case{Draft: draft, RS: rs, Len: l, Payload: p, MaxRS: max, Reads: pat}) {
+							src := []int{0, 1, 2, 7, 8, 9, 512}[n%7]
+							if !exhProp.One(t, Case{Draft: draft, RS: rs, Len: l, Payload: p, MaxRS: max, Reads: pat, Src: src}) {
 								return
 							}
 						}
@@ -301,7 +313,7 @@ func TestExhaustive(t *testing.T) {
 										continue
 									}
 									n++
-									if !exhProp.One(t, Case{Draft: draft, RS: rs, Len: l, Payload: p, MaxRS: 16384, Reads: []int{first}, Drain: drain, DrainAfter: after}) {
+									if !exhProp.One(t, Case{Draft: draft, RS: rs, Len: l, Payload: p, MaxRS: 16384, Reads: []int{first}, Drain: drain, DrainAfter: after, Src: []int{0, 1, 3, 33}[n%4]}) {
 										return
 									}
 								}
@@ -390,6 +402,10 @@ func TestPropRoundTrip(t *testing.T) {
 		}
 		sz := rapid.SampledFrom([]int{1, c.RS - 1, c.RS, c.RS + 33, 65536, 0, 7, 2*c.RS + 1})
 		c.Reads = rapid.SliceOfN(sz, 1, 6).Draw(t, "reads")
+		c.Src = gen.DrawSourceMode(t, "src")
+		if c.Len > 20000 && c.Src > 0 && c.Src < 8 {
+			c.Src = 4097
+		}
 		if c.Len > 20000 {
 			// 1-octet reads of a large payload only cost time; keep at most one tiny size
 			tiny := 0
